@@ -166,6 +166,13 @@ class _HyperRectangleGrid(Grid):
             interpolate = RegularGridInterpolator((x, y, z), values, method=method)
             return interpolate(points)
 
+        def _spline(nodes, vals):
+            # CubicSpline needs increasing nodes; a negative axis enumerates them in decreasing order.
+            nodes, vals = np.asarray(nodes), np.asarray(vals)
+            if nodes[0] > nodes[-1]:
+                nodes, vals = nodes[::-1], vals[::-1]
+            return CubicSpline(nodes, vals)
+
         # Interpolate the Z-Axis.
         def z_spline(z, x_index, y_index, nu_z=nu_z):
             # x_index, y_index is assumed to be in the grid while z is not assumed.
@@ -173,7 +180,7 @@ class _HyperRectangleGrid(Grid):
             # The `1` and `self.num_puts[2] - 2` is needed because I don't want the boundary.
             small_index = self.coordinates_to_index((x_index, y_index, 1))
             large_index = self.coordinates_to_index((x_index, y_index, self.shape[2] - 2))
-            val = CubicSpline(
+            val = _spline(
                 self.points[small_index:large_index, 2],
                 values[small_index:large_index],
             )(z, nu_z)
@@ -183,7 +190,7 @@ class _HyperRectangleGrid(Grid):
         def y_splines(y, x_index, z, nu_y=nu_y):
             # The `1` and `self.num_puts[1] - 2` is needed because I don't want the boundary.
             # Assumes x_index is in the grid while y, z may not be.
-            val = CubicSpline(
+            val = _spline(
                 self.points[np.arange(1, self.shape[1] - 2) * self.shape[2], 1],
                 [z_spline(z, x_index, y_index, nu_z) for y_index in range(1, self.shape[1] - 2)],
             )(y, nu_y)
@@ -195,7 +202,7 @@ class _HyperRectangleGrid(Grid):
 
         # Interpolate the point (x, y, z) from a list of interpolated points on x,y-axis.
         def x_spline(x, y, z, nu_x):
-            val = CubicSpline(
+            val = _spline(
                 self.points[np.arange(1, self.shape[0] - 2) * self.shape[1] * self.shape[2], 0],
                 [y_splines(y, x_index, z, nu_y) for x_index in range(1, self.shape[0] - 2)],
             )(x, nu_x)
